@@ -25,6 +25,45 @@ claim("C19",
   "Trusted: Coq kernel+vm_compute; OS filesystem semantics (pathlib/shutil) are not modelled; the model abstracts file contents to (generation id | user tag); user files inside models/ and api/ are deleted by design (rmtree) and the theorem says so; project_name_override/package_name_override are configuration and used raw.",
   "Coq proof (invariant over histories) + in-Coq differential correspondence on directory histories", "4/C19")
 
+claim("C13",
+  "Coq theorems on Values.v (model of every property class's convert_value) and PyEval.v (evaluator of the emitted default-expression sub-language): default_sound (for the ten scalar kinds and EVERY JSON value "
+  "inside the guard default_class = 0, an accepted default's emitted Python expression evaluates to the typed value the document declares: int, bool, float token, string, date/date-time via isoparse, UUID), "
+  "default_complete (inside the guard a value that denotes nothing of the kind is rejected with a PropertyError), default_null; unguarded per-kind characterisations conv_int/bool/float_sound+complete "
+  "(what the lenient conversions accept is exactly int_meaning/bool_meaning/float_meaning), conv_date/datetime/uuid_sound, conv_enum/litenum/const_sound, conv_union_first; one `_refuted` witness per non-zero "
+  "guard class (float_token, string/int/bool lenient, default_dq, nonfinite crash, uuid raw, union_first_match, enum_default_dq). float()/isoparse/UUID are record fields (explicit premises, no axioms). "
+  "The model is tied to the code by evaluating Values.convert_value inside Coq on ~8.5k (kind, value) cases per quick run against the real classes (direct convert_value and property_from_data with `default`), the "
+  "oracle record being instantiated from the real float()/isoparse/UUID results; stage C generates documents with defaults in model properties and query/header/cookie parameters, executes the generated code in a fresh "
+  "interpreter (attribute after no-arg construction, to_dict, inspect.signature defaults) and classifies every deviation by the Coq guard into listed findings or VIOLATION.",
+  "Trusted: Coq kernel+vm_compute; the oracles float()/str(float)/isoparse/UUID (only their tabulated results and the token class of str(float), sampled each run); the model's string-literal lexer does not decode "
+  "\\x/\\u escapes, so defaults that are not repr-printable (class 9) and list/dict defaults of Any are covered by correspondence+oracle only; $ref/allOf re-conversion routes are exercised by C15/C20, not proved here.",
+  "Coq proof (case analysis over kinds x JSON constructors, literal round-trip lemmas) + in-Coq differential correspondence + executed-client oracle", "4/C13")
+
+claim("C14",
+  "Coq theorems on Values.values_from_list and Enums.v (model of enum build, the generated Enum/IntEnum classes, Literal sets, check_ functions, nullable-enum union decoder and const check): vfl_members_sub "
+  "(no invented member, any input), vfl_exact + keys_nodup (under g_enum_sanitised_distinct the table is exactly the declared values), enum_exact_str (under g_no_bs_nl and g_enum_sanitised_distinct: the class "
+  "exists, every listed string decodes to a member whose .value is that string, whatever decodes is a listed string, everything else raises, no other members), enum_exact_int (no guard; int tables never raise), "
+  "enum_dup_reported (a raw key equal to an earlier stored name raises, is never merged), literal_enum_exact, null_makes_nullable / no_null_plain / nullable_accepts_null, const_exact + py_eq_same_type; "
+  "`_refuted` witnesses: enum_silent_merge, enum_dup_crash, enum_backslash, nullable_passthrough, numeric alias (enum and const), const quote. All for unbounded lists/strings (induction), Unicode table facts "
+  "regenerated. Tied to the code by (a) EnumProperty.values_from_list / EnumProperty.build / LiteralEnumProperty.build vs the model on hostile value lists, (b) generated classes of both enum styles imported in a fresh "
+  "interpreter: members, *_VALUES sets and the from_dict decode of every probe value (listed, same-type unlisted, Python-equal of another type, other types, null) and const checks vs the model, all evaluated inside Coq; "
+  "stage C evaluates the property's predicate on the generated classes and classifies deviations by the Coq guards.",
+  "Trusted: Coq kernel+vm_compute; CPython Enum value lookup / set membership / == as modelled by enum_lookup / literal_check / py_eq (correspondence only); identifiers are NFKC-normalised by CPython (member names are "
+  "compared modulo that map); g_repr_printable and brace-free consts delimit the model's literal lexer (not defect classes); inline vs referenced enums share EnumProperty.build and are not distinguished.",
+  "Coq proof (induction over value lists, literal round-trip lemmas) + in-Coq differential correspondence on parser and executed generated classes", "4/C14")
+
+claim("C02",
+  "Coq theorem CodecThm.roundtrip (exported as C02_roundtrip): for EVERY class table, property kind, JSON instance and nesting depth, if the schema is inside the static guard (k_ok/table_ok: union members "
+  "pairwise distinguishable by JSON tag, no const inside a multi-member union, no File in a JSON model) and the instance is schema-valid with canonical date/date-time/uuid text, then the model of the generated "
+  "from_dict accepts it and the model of to_dict re-encodes the decoded object to the SAME JSON value (objects are finite maps); corollaries decode_reencoded, additional_preserved, wire_names_exact; four "
+  "`_refuted` witnesses show each guard conjunct is necessary (each is a listed known finding of the generated union code) and a non-vacuity example. Proof by induction on decoder fuel with one lemma per generated loop "
+  "(list / model field loop / additional properties / union try-chain and isinstance-chain). Which kinds have construct/transform/check macros is read from GenKinds.v, regenerated from the real templates on every run. "
+  "The model Codec.v is tied to the code by executing the GENERATED from_dict/to_dict in a fresh interpreter on ~1600 (quick) instances over an atlas of documents (every kind x position, all ordered union pairs, recursion, "
+  "additionalProperties variants, allOf) plus random schema graphs, and comparing decoded object structure and re-encoded output (or exception) with Codec.dec/enc evaluated by vm_compute on the property trees abstracted from "
+  "the implementation's own parse; an oracle checks to_dict(from_dict(j)) == j, from_dict(to_dict(x)) == x and json.dumps on every instance inside the theorem's guard (guard evaluated in Coq).",
+  "Trusted: Coq kernel+vm_compute; gen_kinds.py translator; the abstraction function harness/lib/absprop.py and the value serialiser harness/lib/client_runner.py; dateutil.isoparse/uuid.UUID as oracles (canonical re-formatting "
+  "supplied per shard); floats are opaque non-integral tokens; attrs __eq__ = structural equality; wrong container types in direct (non-union) positions are outside the model and never generated; multipart encoding not modelled.",
+  "Coq proof (fuel induction over a denotational codec model) + in-Coq differential correspondence against executed generated code", "4/C02")
+
 def main():
     checks = []
     for pid in ALL:
